@@ -471,6 +471,9 @@ def limit_grid(cfg):
         ops = ["push_back 0 v7", "push_back_rv 0 v7", "emplace_back 0 v7", "at 0 %d" % s, "at 0 %d" % (s + 3)]
         if s:
             ops += ["push_back 0 o0", "at 0 %d" % (s - 1)]
+            # rvalue references to own elements: a failing call must not consume them
+            ops += ["push_back_rv 0 o0", "push_back_rv 0 o%d" % (s - 1), "emplace_back 0 o0", "insert_rv 0 0 o%d" % (s - 1),
+                    "insert_rv 0 %d o0" % (s // 2), "emplace 0 %d o%d" % (s // 2, s - 1)]
         for p in sorted(set([0, s // 2, s])):
             ops += ["insert 0 %d v7" % p, "insert_rv 0 %d v7" % p, "emplace 0 %d v7" % p]
             for n in range(0, 7):
